@@ -47,8 +47,8 @@ type c13Machine struct {
 	ops []blockOp
 	// per-history counters for classification
 	htlcRefunds, farmEnds, svcExpiries, randomsDue int
-	multiDue, sameBlockMod                        int
-	okTxs                                         int
+	multiDue, sameBlockMod                         int
+	okTxs                                          int
 }
 
 func newC13() pbt.Machine[blockOp] {
@@ -242,7 +242,7 @@ func (m *c13Machine) hygiene() error {
 	// ---- service
 	entries := map[string][]string{} // ctxID -> entries
 	for _, q := range []struct {
-		name          string
+		name         string
 		prefix, mark []byte
 	}{{"new-batch", servicetypes.NewRequestBatchKey, servicetypes.NewRequestBatchHeightKey}, {"expiry", servicetypes.ExpiredRequestBatchKey, servicetypes.ExpiredRequestBatchHeightKey}} {
 		keys, _ := rawStore(m.n, ctx, "service", q.prefix)
@@ -310,6 +310,7 @@ func (m *c13Machine) Classify() (bool, []string) {
 	add(m.multiDue > 0, "two-modules-due-in-one-block")
 	add(m.sameBlockMod > 0, "txs-in-a-due-block")
 	add(len(m.h.w.modules) >= 8, "modules>=8")
+	add(passedProposals(m.n) > 0, "params-changed-by-proposal")
 	return m.multiDue > 0 && m.sameBlockMod > 0, cl
 }
 
